@@ -30,7 +30,10 @@
 (*           an empty set = unconstrained.  Several pairs with one header key = any of the *)
 (*           values; several keys = all of them.  A query pair with value AnyValue asks    *)
 (*           for the presence of the key only.                                             *)
-(* Txn    == [side, url, method, hdr, qry, status]  side \in {"req","resp"}; hdr, qry =    *)
+(* Txn    == [side, url, method, hdr, qry, status]  side \in {"req","resp","early"}; "early" *)
+(*           = the response generated inside the gateway for a request a flow answered     *)
+(*           (status = the generated status; the flows are looked up again for it); hdr,   *)
+(*           qry =                                                                         *)
 (*           sets of <<key, value>> pairs (one per key).                                   *)
 EXTENDS UrlPattern, TLC
 
@@ -110,7 +113,7 @@ ValuesOf(S, k) == {e[2] : e \in {e \in S : CI(e[1]) = CI(k)}}
 
 HeaderV(f, x) ==
     IF f.h = {} THEN Yes
-    ELSE IF x.side = "resp" THEN Either                 \* Z3
+    ELSE IF x.side # "req" THEN Either                  \* Z3
     ELSE And3({ LET allowed == ValuesOf(f.h, e[1])
                     have    == ValuesOf(x.hdr, e[1])
                 IN  IF have \cap allowed # {} THEN Yes
@@ -120,7 +123,7 @@ HeaderV(f, x) ==
 
 QueryV(f, x) ==
     IF f.q = {} THEN Yes
-    ELSE IF x.side = "resp" THEN Either                 \* Z3
+    ELSE IF x.side # "req" THEN Either                  \* Z3
     ELSE And3({ LET have == {g[2] : g \in {g \in x.qry : g[1] = e[1]}}
                 IN  IF have = {} THEN No
                     ELSE IF e[2] = AnyValue \/ e[2] \in have THEN Yes
@@ -130,7 +133,9 @@ QueryV(f, x) ==
 StatusV(f, x) ==
     IF f.s = {} THEN Yes
     ELSE IF x.side = "req" THEN Either                  \* Z3
-    ELSE IF x.status \in f.s THEN Yes ELSE No
+    ELSE IF x.status \notin f.s THEN No
+    ELSE IF x.side = "early" THEN Either                \* Z3: the generated response is not attached to the stream
+    ELSE Yes
 
 -------------------------------------------------------------------------------
 (* the property *)
